@@ -776,6 +776,8 @@ class AnimalSpecies:
 
         NE_required = self.NE_balance.kcals
         if NE_required == 0:
+            # nothing is needed (e.g. the herd is empty): do not keep last month's fed count
+            self.population_fed = self.current_population
             return grass_input, feed_input
 
         # Calculate NE from grass, if ruminant, else 0
